@@ -6,7 +6,7 @@
 (* them on recorded events; the MC_* models evaluate the same operators on *)
 (* exhaustive small scopes.                                                *)
 (***************************************************************************)
-EXTENDS Wide, Rounding, Text, TLC, FiniteSets
+EXTENDS Wide, Rounding, Text, Exp, FiniteSets
 
 OK == <<"ok">>
 Bad(why) == <<"bad", why>>
@@ -352,4 +352,13 @@ InvAgreeOK(hs, x, p, m, r) ==
   IF k = 0 \/ ~IsD(r) THEN OK ELSE Chk(ValEq(hs[k][2], DAbs(DecOf(r.d))), "negation-does-not-commute-under-the-mirrored-mode")
 InvRemember(hs, x, p, m, r) ==
   IF ~IsD(r) \/ DivLookup(hs, InvKey(x, p, m)) # 0 THEN hs ELSE Append(hs, <<InvKey(x, p, m), DAbs(DecOf(r.d))>>)
+
+\* ---------------------------------------------------------------- C13: exp
+ExpOK(x, P, r) ==
+  IF IsTimeout(r) THEN Bad("does-not-terminate")
+  ELSE IF ~IsD(r) THEN Bad("outcome-kind")
+  ELSE LET y == DecOf(r.d) IN
+       IF x.d = <<>> THEN Chk(ValEq(y, DOne), "exp-of-zero-is-one")
+       ELSE IF y.s # 1 THEN Bad("not-strictly-positive")
+       ELSE Chk(ExpWithinOneUlp(x, P, y), "more-than-one-ulp-off")
 =============================================================================
